@@ -1,23 +1,27 @@
 (* C19 - Canonical source text parses and prints back unchanged.
 
-   PROVED in full at the goal and rule level, relative to the leaves: for every canonical goal
-   (any nesting of conjunctions and disjunctions over leaf goals) and every canonical rule,
-   Display gives the canonical text and parsing that text gives the value back
-   (Properties/C19goals.v, Proofs/GoalRoundtrip.v).  The hypothesis on each leaf is that the
-   leaf parser inverts Display on that leaf's text (`leaf_ok`).
-   At the term level the inversion is PROVED (C19_roundtrip_terms, Proofs/TermRoundtrip*.v) for the
-   class `canonical`: atoms [a-z][A-Za-z0-9_]*, 64-bit integers, variables $[A-Za-z][A-Za-z0-9_]*
-   (id 0) and $_, complex terms f(t1, ..., tn) (f not one of join/add/subtract/multiply/divide, text
-   of at most 1000 characters - the limit of validate_complex), lists [t1, ..., tn] and
-   [t1, ..., tn | $V] in the node shape the constructors build; `canonicalb` is an executable test
-   that implies it.  Outside the class the proof work found where printer and parser really
-   disagree (compiled as Examples in Proofs/TermRoundtrip*.v): `[a | $_]` does not parse, a list
-   consisting of a tail variable only prints as `[$T]` and reads back as a one-element list,
-   `add(..)`-named complex terms read back as functions, complex terms longer than 1000 characters
-   are rejected.  Floats, built-in leaf goals and infix forms are not covered by a theorem and are
-   evaluated by the correspondence check (print by the real Display, parse by the real parser). *)
+   PROVED, with the REAL parsers throughout (no hypothesis about leaf parsers left):
+     C19_closed_rules   for every closed rule r - head a call f(t1..tn), n >= 0, body built with `,` `;`
+                        (any nesting) from leaves: calls, built-in predicates in functional notation,
+                        `l = r`, `!`, `fail`, `nl`, not(leaf), time(leaf); all arguments canonical terms -
+                        Display gives the canonical text rule_text r, and parse_rule of that text
+                        gives r back (Proofs/RuleRoundtripClosed.v; `closed_ruleb` is an executable
+                        test implying the class);
+     C19_roundtrip_terms  parse_term (show_term t) = t for every canonical term: atoms
+                        [A-Za-z0-9_][A-Za-z0-9_ ]* (not all digits), 64-bit integers, variables
+                        $[A-Za-z][A-Za-z0-9_]* and $_, complex terms (functor [a-z][A-Za-z0-9_]*, not a
+                        function name; text up to the 1000 characters validate_complex allows), lists
+                        with and without tail variable or `$_` tail, nested without bound;
+     C19_roundtrip_goals / _rules  the same one level up for ANY leaf parser that inverts Display on
+                        the leaves (Proofs/GoalRoundtrip.v).
+   NOT covered by a theorem: floats, quoted atoms, functors/variable names with other characters,
+   not/time over `=`; these are evaluated by the correspondence check (print by the real Display,
+   parse by the real parser, compare).  The proof work found real disagreements between printer and
+   parser; two were repaired in the crate ([a | $_] rejected: 5e5ae04; go() rejected: 0f55f67), the
+   others are outside the documented syntax and are listed, each with a compiled Example, in the
+   header of Properties/C19closed.v. *)
 From Suiron Require Import Model.PResult Model.ParseTerm Model.ParseGoal Model.Tokenizer Model.ParseRule
-  Model.ShowGoal Model.Show Proofs.TokenizerProofs Proofs.GoalRoundtrip Proofs.ParseRoundtrip Proofs.ParseTermProofs Proofs.TermRoundtripMain Proofs.TermRoundtripCheck.
+  Model.ShowGoal Model.Show Proofs.TokenizerProofs Proofs.GoalRoundtrip Proofs.ParseRoundtrip Proofs.ParseTermProofs Proofs.TermRoundtripMain Proofs.TermRoundtripCheck Proofs.GoalLeafParse Proofs.RuleRoundtripClosed Proofs.RuleRoundtripCheck.
 
 Theorem C19_roundtrip_goals : forall (ps : str -> res (presult goal)) g fuel,
   canonical_goal ps g -> (2 * length (text g) + 3 <= fuel)%nat ->
@@ -48,6 +52,17 @@ Theorem C19_roundtrip_terms_checked : forall t fuel,
   parse_term fuel (show_term t) = Ok (POk t).
 Proof. exact canonicalb_roundtrip. Qed.
 
+Theorem C19_closed_rules : forall r F fuel,
+  closed_rule r -> (length (rule_text r) + 2 <= F)%nat -> (2 * length (rule_text r) + 3 <= fuel)%nat ->
+  show_rule r = Ok (rule_text r) /\
+  parse_rule (parse_subgoal F) (parse_complex F) fuel (rule_text r) = Ok (POk r).
+Proof. exact roundtrip_rule_closed. Qed.
+
+Theorem C19_closed_goals : forall g F fuel,
+  closed_goal g -> (length (text g) + 2 <= F)%nat -> (2 * length (text g) + 3 <= fuel)%nat ->
+  show_goal g = Ok (text g) /\ generate_goal (parse_subgoal F) fuel (text g) = Ok (POk g).
+Proof. exact roundtrip_goal_closed. Qed.
+
 Check C19_roundtrip_goals : forall (ps : str -> res (presult goal)) g fuel,
   canonical_goal ps g -> (2 * length (text g) + 3 <= fuel)%nat ->
   show_goal g = Ok (text g) /\ generate_goal ps fuel (text g) = Ok (POk g).
@@ -57,4 +72,6 @@ Print Assumptions C19_roundtrip_rules.
 Print Assumptions C19_neutral_criterion.
 Print Assumptions C19_partial_integer_terms.
 Print Assumptions C19_roundtrip_terms.
+Print Assumptions C19_closed_rules.
+Print Assumptions C19_closed_goals.
 Print Assumptions C19_roundtrip_terms_checked.
